@@ -1,9 +1,9 @@
-"""Run every translator (T1 funfit, T2 dataset tables, T3 vector arithmetic, T4 rfa loops, T5 search scans) against /repo's working tree."""
+"""Run every translator (T1 funfit, T2 dataset tables, T3 vector arithmetic, T4 rfa loops, T5 search scans, T6 Weaver effect order) against /repo's working tree."""
 import importlib
 import sys
 
 def main():
-    for t in ("t1_funfit", "t2_tables", "t3_vector", "t4_rfaloops", "t5_search"):
+    for t in ("t1_funfit", "t2_tables", "t3_vector", "t4_rfaloops", "t5_search", "t6_effects"):
         try:
             mod = importlib.import_module(f"harness.{t}")
         except ModuleNotFoundError:
